@@ -301,6 +301,9 @@ def enclosing_observation(cm, exe):
     return out
 
 
+KEY_GATE = "C07:normal-test-withholds-enclosing-contacts"
+
+
 # ---------------------------------------------------------------- run
 def run(ctx):
     tier, seed = ctx["tier"], ctx["seed"]
@@ -429,6 +432,16 @@ def run(ctx):
                 if nrf <= 2:
                     V.fail_input("contact model %d: %s" % (cm, msg), {"contact_model": cm, "mode": "tissue", "tissue": t.describe(), "line": rlines[i]}, key=None)
         observations["contact_model_%d" % cm] = enclosing_observation(cm, exe)
+        for prep, ob in observations["contact_model_%d" % cm].items():
+            if not isinstance(ob, dict):
+                V.fail_tie("correspondence", "contact model %d: the enclosing-matrix scenario gave no answer (%s)" % (cm, ob))
+            elif ob["pushed_back"] < ob["escaped_nodes"]:
+                gated = cm in (1, 2) and prep == "node_normals_computed"
+                V.fail_input("contact model %d (%s): %d of %d nodes of an epithelial cell that crossed to the outside of the enclosing ECM cell "
+                             "receive no force pointing back to its surface" % (cm, prep, ob["escaped_nodes"] - ob["pushed_back"], ob["escaped_nodes"]),
+                             {"scenario": "enclosing_observation", "contact_model": cm, "node_normals": prep,
+                              "outer": "ECM icosphere radius 3 at the origin", "inner": "epithelial icosahedron radius 1 centred at (2.6,0,0)", "cut_offs": 0.5},
+                             key=KEY_GATE if gated else None)
         per_model[str(cm)] = {"pair_tissues": len(ts), "pairs": len(recs_all), "pair_failures": nfail, "model_disagreements": ndis,
                               "run_tissues": len(rts), "run_failures": nrf}
     rcode, nviol = V.finish()
@@ -459,6 +472,16 @@ def replay(ctx):
     rp = ctx["replay"]
     fi = rp.get("failing_input", {}).get("input", {})
     line = fi.get("line")
+    if fi.get("scenario") == "enclosing_observation":
+        cm = int(fi["contact_model"])
+        exe, _ = cc.build(cm)
+        ob = enclosing_observation(cm, exe).get(fi["node_normals"])
+        print("contact model %d, %s: %s" % (cm, fi["node_normals"], json.dumps(ob)))
+        if not isinstance(ob, dict) or ob["pushed_back"] < ob["escaped_nodes"]:
+            print("VIOLATION property=C07 replay=%s" % ctx.get("replay_path", "-"))
+            return 1
+        print("property holds on this input now")
+        return 0
     if not line:
         print("replay file names no input: %s" % json.dumps(rp.get("no_longer_checks", rp))[:2000])
         return 1
